@@ -93,3 +93,15 @@ package keeper
 //@ ensures [not-due] !$shouldSendRewardsToProvider.ret ==> !$SendRewardsToProvider.called && k.GetLastTransmissionBlockHeight(ctx) == old(k.GetLastTransmissionBlockHeight(ctx))
 //@ ensures [clock-reset] $shouldSendRewardsToProvider.ret ==> k.GetLastTransmissionBlockHeight(ctx).Height == height
 //@ ensures [failed-send-rolled-back] $SendRewardsToProvider.called && $SendRewardsToProvider.ret != nil ==> (forall key bytes :: key != types.LastDistributionTransmissionKey() ==> S[key] == old(S[key]))
+
+// ---------------------------------------------------------------- C09 / C19 / C08: sending queued packets
+
+//@ func Keeper.SendPackets
+//@ precall SendIBCPacket [only-when-permitted] k.PacketSendingPermitted(ctx)
+//@ precall SendIBCPacket [own-channel] k.GetProviderChannel(ctx).1 && $SendIBCPacket.sourceChannelID == k.GetProviderChannel(ctx).0 && $SendIBCPacket.sourcePortID == ccv.ConsumerPortID
+//@ loop 1 invariant [idx] 0 <= _i && _i <= len(pending)
+//@ loop 1 invariant [sent-prefix] len(idxsForDeletion) == _i && (forall j int :: 0 <= j && j < _i ==> idxsForDeletion[j] == pending[j].Idx && pending[j].Type != ccv.SlashPacket)
+//@ loop 1 invariant [store-kept] S == old(S)
+//@ ensures [no-channel] !old(k.GetProviderChannel(ctx)).1 ==> S == old(S) && E == old(E) && X == old(X)
+//@ ensures [slash-packet-kept] old(k.GetProviderChannel(ctx)).1 ==> forall j int :: 0 <= j && j < len(idxsForDeletion) ==> idxsForDeletion[j] == pending[j].Idx && pending[j].Type != ccv.SlashPacket
+//@ ensures [only-sent-deleted] old(k.GetProviderChannel(ctx)).1 ==> $DeletePendingDataPackets.called && len($DeletePendingDataPackets.idxs) == len(idxsForDeletion) && (forall j int :: 0 <= j && j < len(idxsForDeletion) ==> $DeletePendingDataPackets.idxs[j] == idxsForDeletion[j])
